@@ -105,7 +105,7 @@ Proof. unfold body_if. ff. Qed.
 
 Lemma FF_process_section o st should p s : FF (process_section o st should p s).
 Proof.
-  unfold process_section.
+  unfold process_section, section_tail.
   pose proof FF_refuse. pose proof FF_body_if. pose proof FF_ensure. pose proof FF_backup. pose proof FF_write_now. pose proof FF_remove.
   ff.
 Qed.
